@@ -340,13 +340,22 @@ def fluids_available():
                 out.append({"kind": "shipped", "file": fn[:-4], "variant": m.tag})
     # the constant-property fluid of the upstream analytic test (exercises degree-0 polynomials)
     out.append({"kind": "poly", "cp": [0.3], "rho": [1.9e-6], "mu": [1.5e-2], "k": [5e-4], "scalars": {}})
+    # the shipped property polynomials with a NARROW documented validity window, so that the fluid runs below / above it
+    # (inlet temperatures are 550..850): the window clips the temperature for the film correlation (and for the density
+    # the code documents), not for the heat capacity of the enthalpy balance
+    for spec in list(out[:-1])[:2]:
+        num = c18.fluid_numbers(c18.make_fluid(spec))
+        for lo, hi in ((900.0, 1050.0), (300.0, 600.0)):
+            out.append({"kind": "poly", "file": "windowed", "cp": num["cp"], "rho": num["rho"], "mu": num["mu"], "k": num["k"],
+                        "scalars": {"film_min": num["film_min"], "T_max": hi, "T_min": lo,
+                                    "laminar_cutoff": num["laminar_cutoff"], "laminar_value": num["laminar_value"]}})
     return out
 
 
 def run(ctx):
     ctx.rule = ("random chains: 1-4 panels x 1-4 explicitly represented tubes, integer or real multipliers, nt 1-6, "
                 "nz 1-8, 2-3 time points, query time inside / on a node of the history, every shipped fluid variant + "
-                "one constant-property fluid; correspondence at a random state vector (and at the solution for the solved "
+                "one constant-property fluid + shipped polynomials with a narrow validity window (fluid below / above it); correspondence at a random state vector (and at the solution for the solved "
                 "chains); non-trivial = at least one panel with >= 2 tubes or >= 2 panels; distinct = distinct chain.")
     ctx.trusted = ["Lean 4 kernel + Mathlib (propext, Classical.choice, Quot.sound)",
                    "correspondence harness harness/c14.py; the fluid functions are the C18 model (SrModel.Fluid)",
